@@ -153,6 +153,24 @@ CHECKS['C17'] = dict(
          'away equals frac*2^k rounded by the base mode, exactly one draw of the context\'s k is consumed per finite non-zero rounding; an op-level layer checks add/mul/div under stochastic contexts.',
     note='Trusted: vlib/oracle_round.py for the base-mode rounding of the extra digits; scripted random.Random subclass records every getrandbits call.')
 
+CHECKS['C19'] = dict(
+    category='exploration', design_ref='DESIGN.md §3 C19',
+    technique='watermarked program generation + bounded enumeration of site/refusal arrangements + Hypothesis rule-based state machine over strategy/cursor histories vs an independent forwarding model',
+    text='Programs in which every statement binds a program-unique name (so descent is decided by watermark sets, independent of paths) are rewritten by every aimable strategy: '
+         'for k listed sites, where=j rewrites exactly the statement site j names and nothing else, other indices raise TransformReferenceError, where=None equals all k, '
+         'where=cursor equals where=index, and sites+refusals equal our own candidate scan; a state machine takes cursors, applies reporting and non-reporting passes, '
+         'forwards and re-aims old cursors, and every held cursor must either raise or resolve to statements descending from its origin. 2068 small arrangements are enumerated exhaustively.',
+    note='Trusted: vlib/c19_model.py (own tree walkers and reference forwarding model). Multi-statement Rewrite windows share one image; statically empty loops dropped by unroll/split are counted.')
+
+CHECKS['C20'] = dict(
+    category='exploration', design_ref='DESIGN.md §3 C20',
+    technique='exhaustive operand pairs/triples over all members of small float contexts with preconditions enforced by construction vs exact rational identities and the rounding oracle',
+    text='For every error-free transformation: all operand pairs (triples for p<=4) over all members of MPSFloat/IEEE contexts with p in 2..6 incl. subnormals, under the modes each '
+         'docstring allows, with the stated preconditions built into the generator (ordered magnitudes, enough precision for Veltkamp splitting, exponent windows keeping error terms '
+         'in range): den(s) + sum den(t_i) must equal the exact sum/product/fma and s must be the correctly rounded result; split/modf/frexp must recombine exactly; ldexp must be '
+         'the exact product rounded once (incl. subnormal/overflow results); ideal_* variants under any context where the rounded result is finite.',
+    note='Trusted: vlib/oracle_round.py, Fraction arithmetic. Exponent windows are listed in the module (WINDOWS) and in the evidence rule.')
+
 NOT_YET = {}
 
 
